@@ -2025,9 +2025,21 @@ class IMAPClientCommand:
         if mbox_name.lower() == "inbox":
             mbox_name = "inbox"
         if mbox_name != "":
-            return os.path.normpath(mbox_name)
-        else:
-            return mbox_name
+            mbox_name = os.path.normpath(mbox_name)
+
+            # A mailbox name is a path relative to the user's mail directory
+            # (a single leading `/` is our namespace prefix and is ignored.)
+            # It must not name the mail directory itself or lead outside of
+            # it: `..`, `../x`, `//x`.
+            #
+            rel = mbox_name[1:] if mbox_name.startswith("/") else mbox_name
+            if (
+                rel in (".", "..")
+                or rel.startswith("../")
+                or rel.startswith("/")
+            ):
+                raise BadSyntax(value=f"invalid mailbox name: '{mbox_name}'")
+        return mbox_name
 
     #######################################################################
     #
